@@ -417,3 +417,48 @@ def s_c18_int(ev, state, node):
         n = z3.Int('c18_int_n')
         ev.ctx.axioms.append(z3.ForAll([n], INT_OF(_INT_INJ(n)) == n, patterns=[_INT_INJ(n)]))
     return SymVal(T.INT, INT_OF(v.term))
+
+
+# ---------------------------------------------------------------------------------------------
+# A-CBG: CellByGeneMatrix(data=, gene_identifiers=, cell_identifiers=, normalization=) as seen by
+# get_leaf_means (cell_by_gene.py:33-76): the object stores the data array and (deep copies of) the
+# identifier lists and the normalisation, or raises RuntimeError (unknown normalisation, number of
+# gene identifiers != number of columns, repeated identifiers).  `data` must be an array
+# (AttributeError on None: obligation).
+# ---------------------------------------------------------------------------------------------
+_CBG = 'cell_type_mapper.cell_by_gene.cell_by_gene.CellByGeneMatrix'
+
+
+def install_cbg_constructor(qualnames):
+    from pyvc.symexec import PendingRaise
+    prev = prims.QUALIFIED.get(_CBG)
+    if getattr(prev, '_c18', False):
+        prev._c18_for.update(qualnames)
+        return
+    ty = T.TRec('C18CBG')
+
+    def q_cbg(ev, state, node):
+        if (ev.ctx.qualname or '').split('#')[0] not in q_cbg._c18_for or node.args:
+            if prev is None:
+                raise Unsupported("CellByGeneMatrix(...) (no model for this use)")
+            return prev(ev, state, node)
+        kw = {k.arg: ev.eval(state, k.value) for k in node.keywords}
+        if set(kw) != {'data', 'gene_identifiers', 'cell_identifiers', 'normalization'}:
+            raise Unsupported("CellByGeneMatrix(...) argument form")
+        data = kw['data']
+        if data.ty[0] == 'opt':
+            ev.ctx.oblige(state, z3.Not(T.opt_is_none(data.ty, data.term)), 'AttributeError', node,
+                          'data of a CellByGeneMatrix is an array (None has no .shape)')
+            data = select(data, ('some',))
+        data = coerce(data, T.TArr2(T.REAL))
+        genes = coerce(kw['gene_identifiers'], NAMES_TY)
+        cells = coerce(kw['cell_identifiers'], NAMES_TY)
+        norm = coerce(kw['normalization'], T.NAME)
+        b = z3.Bool(fresh_name('cbg_raise'))
+        ev.ctx.pending.append(PendingRaise('RuntimeError', [b]))
+        state.assume(z3.Not(b))
+        ev.ctx.trusted_used.add('A-CBG')
+        return SymVal(ty, T.ctor(ty)(data.term, genes.term, cells.term, norm.term))
+    q_cbg._c18 = True
+    q_cbg._c18_for = set(qualnames)
+    prims.QUALIFIED[_CBG] = q_cbg
